@@ -322,7 +322,7 @@ def apply(s, op, part, hist):
         return True
     if failure is not None:
         part.count("failed_operations")
-        if "[fails" not in op:
+        if "[fails" not in op and "a getter returned" not in op:  # (an edit of a returned copy may be refused: tuples instead of lists)
             _bad(s, part, hist, op, "raised %s" % type(failure).__name__, {"error": repr(failure)})
             return True
     part.add("outcomes", (op, type(failure).__name__ if failure is not None else (value_key(results[0][0]) if results and op in OPS_TABLE else "ok")))
